@@ -1,6 +1,7 @@
 import PicoProofs.EndToEnd
 import PicoProofs.DecRefineMap
 import PicoProofs.Tie
+import PicoProofs.GoTieMap
 /-
 C11 — All 180 map codecs are faithful and protobuf-compatible.
 
@@ -59,5 +60,42 @@ theorem C11_duplicate_key_keeps_last (es : List (Val × Val)) (key v1 v2 : Val)
   calc es.map (fun e => if keyEq e.1 key = true then (e.1, v2) else e) = es.map id :=
         List.map_congr_left (fun e he => by simp [hall e he])
     _ = es := List.map_id es
+
+/-! ### the 180 codecs as translated from picowire/map.go -/
+
+open Pico.GoTie.DT Pico.GoTie.ET Pico.GoTie.MP in
+/-- SOURCE: the translated `PicoEncode` of every map type — any key kind, value kind, map content
+and iteration order, any buffer — never panics, leaves the map as it was and appends exactly the
+model's entries (hence, by `C11_encode_is_spec`, the specification's) -/
+theorem C11_source_encode (oracle : Nat → Bytes) (k v : Scalar) (hk : isKeyKind k = true) (field : Int) (enc : EncLow.Buf)
+    (m : Go.Map (GoVal k) (GoVal v)) (hok : ∀ e ∈ Go.mapRange m, InRange k e.1 ∧ InRange v e.2)
+    (hsz : enc.len + (mapEncode k v field (toEntries k v m)).length + 2 < 9223372036854775808) :
+    ∃ t, srcMapEncode oracle k v field enc m
+      = .ok (⟨enc.data ++ mapEncode k v field (toEntries k v m), t⟩, m) :=
+  mapEncode_tie oracle k v hk field enc m hok hsz
+
+open Pico.GoTie.DT Pico.GoTie.MP in
+/-- SOURCE: the translated `PicoDecode` of every map type is the model's `mapDecode` on ANY input:
+a missing key or value is the zero value, a duplicate key overwrites in place, a new key is
+appended, every entry starts from fresh zero key/value, no entry leaves a nil map nil -/
+theorem C11_source_decode (k v : Scalar) (hk : isKeyKind k = true) (field : Int) (dec : Dec.Dec)
+    (m : Option (List (Val × Val))) (hm : KeysOK k m) :
+    srcMapDecode k v field dec (Fm (unV k) (unV v) m)
+      = Res.mapr (fun p => (p.1, Fm (unV k) (unV v) p.2)) (mapDecode k v field dec m) :=
+  mapDecode_tie k v hk field dec m hm
+
+/-- TIE: picowire/map.go declares exactly the 360 methods translated -/
+theorem C11_source_coverage : GoSrc.Map.names.length = 360 := Pico.GoTie.MP.names_expected
+
+/-- non-vacuity: the nil map and a one-entry map have canonical keys -/
+example : Pico.GoTie.MP.KeysOK .int32 none := by
+  intro es h; cases h
+
+example : Pico.GoTie.MP.KeysOK .int32 (some [(.num 7, .num 1)]) := by
+  intro es h e he
+  cases h
+  have : e = (Val.num 7, Val.num 1) := by simpa using he
+  rw [this]
+  exact ⟨7, by decide, rfl⟩
 
 end Pico.Props
